@@ -16,6 +16,7 @@ def run_pyvc(pid, tier, seed, only, verbose, setup):
     runner.run_file(rep, "contracts." + pid, only=only, verbose=verbose)
     from pyvc import replay
     replay.attach_replays(rep, seed)
+    replay.search_witnesses(rep, seed)
     return rep
 
 
